@@ -69,6 +69,10 @@ Definition same_ids (a b : list N) : bool :=
   forallb (fun x => nmem x b) a && forallb (fun x => nmem x a) b.
 Definition walk_case_ok (fields emitted : list (N * N)) (c : gtree * list N) : bool :=
   wfb fields (fst c) && same_ids (walk_ids emitted (fst c)) (snd c).
+(* the pruning predicate the harness uses: the callback returns false on nodes whose type id is k modulo 3 *)
+Definition keep_mod (k : N) (t : gtree) : bool := negb (N.modulo (g_ty t) 3 =? k).
+Definition prune_case_ok (emitted : list (N * N)) (c : gtree * (N * list N)) : bool :=
+  same_ids (map g_id (inspect emitted (keep_mod (fst (snd c))) (fst c))) (snd (snd c)).
 Fixpoint bad_indices {A} (f : A -> bool) (i : N) (l : list A) : list N :=
   match l with
   | [] => []
